@@ -17,6 +17,7 @@ RULE = (
     "alphas at Qref and obey the exact RGE with the scheme's nf and the card's loop order on threshold-free intervals "
     "(own DOP853 integration, rtol 1e-5), and XIR, XIF, alphaqed must be the card's. Distinct = (mode, scheme, PTO, has XS, xi class); "
     "non-trivial = a non-zero prediction was compared (contract/linear) or a coupling interval was integrated (theory)."
+    " In the theory mode half of the cases first apply the same output under a twin card differing in ONE coupling field (nfref, HQ, alphas, Qref, masses, thresholds, PTO, FNS, NfFF, MaxNfAs); one case in five uses an x-by-x lattice with shared Q2 values."
 )
 ASSUMPTIONS = ["ModEv=EXA (exact solution of the RGE) for the RGE oracle; alpha_s thresholds and matching are eko's and only checked away from thresholds"]
 RTOL = 1e-12
